@@ -29,6 +29,8 @@ ASSUMPTIONS = [
     'OCCURRENCE: every occurrence independently lower / UPPER / Capitalised (thorough: + mIxEd) for up to 3 (4) occurrences, otherwise '
     'uniform, single and pairwise deviations; the oracle is the tree of the all-lower-case spelling of the same program (keyword-carrying '
     'fields folded), then the tree the program was printed from',
+    'operation bodies (differential across spellings) include keyword operators whose operands have an effect when evaluated (a '
+    're-entrant call that adds one to an attribute): not / empty / not_empty / and / or, nested, as assigned value and as if condition',
     'interpreted and prebuilt programs with nested keyword operators are rendered with one occurrence at a time in UPPER and Capitalised '
     '(prebuild: also pairs of occurrences of the keywords that are handed on as written) on top of the per-kind renderings',
 ]
@@ -390,7 +392,25 @@ def operation_bodies():
         [c04.IF(('un', 'not_empty', SELF), [('return', ('un', 'cardinality', SELF))]), ('return', I(0))],
         [('create', 'n', 'A'), c04.ASG(('field', V('n'), 'N'), SF('N')), ('delete', 'self'), ('return', ('field', V('n'), 'N'))],
         [c04.ASG(V('me'), SELF), ('return', ('field', V('me'), 'N'))],
-    ]
+    ] + effect_bodies()
+
+
+def effect_bodies():
+    '''(round 11, C08-21) keyword operators whose operands have an effect when evaluated: the operation calls itself with k == 0, which
+    adds one to self.N and returns 0; every spelling must evaluate each operand as often as the lower-case one does.'''
+    V, I, B = c04.V, c04.I, c04.B
+    SELF = ('self',)
+    SF = lambda n: ('field', SELF, n)
+    bump = [c04.IF(B('==', ('param', 'k'), I(0)), [c04.ASG(SF('N'), B('+', SF('N'), I(1))), ('return', I(0))])]
+    call = ('icall', SELF, 'op', [('k', I(0))])
+    zero = B('==', call, I(0))
+    out = []
+    for e in (('un', 'not', call), ('un', 'empty', call), ('un', 'not_empty', call), ('un', 'not', ('un', 'not', call)),
+              B('and', zero, zero), B('or', zero, zero), B('and', B('or', zero, zero), ('un', 'not', call)),
+              ('un', 'not', B('and', zero, zero))):
+        out.append(bump + [c04.ASG(V('f'), e), ('return', SF('N'))])
+        out.append(bump + [c04.IF(e, [c04.ASG(SF('N'), B('+', SF('N'), I(10)))]), ('return', SF('N'))])
+    return out
 
 
 def operation_outcome(text):
@@ -416,6 +436,9 @@ def operation_task(ctx, stmts):
     p = A.print_program(stmts)
     kinds = sorted(set(t.kw for t in p.toks if t.kw))
     base = operation_outcome(A.assemble(p, A.Layout())[0])
+    if base[0] == 'returned':
+        ctx.count('operation_bodies_returning')
+        ctx.distinct('operation_results', base[1])
     rs = [dict((k, st) for k in kinds) for st in STYLES[1:]] + [{k: st} for k in kinds for st in ('upper', 'cap')]
     for r in rs:
         ctx.count('interpret_runs')
@@ -565,6 +588,8 @@ def run(ctx):
     ctx.pmap(operation_task, operation_bodies())
     ctx.require(ctx.n('interpret_per_occurrence_programs') >= 10, 'too few interpreted programs with nested keyword operators (%d)'
                 % ctx.n('interpret_per_occurrence_programs'))
+    ctx.require(ctx.n('operation_bodies_returning') >= 20 and ctx.nd('operation_results') >= 6,
+                'too few operation bodies that return a value (%d, %d distinct values)' % (ctx.n('operation_bodies_returning'), ctx.nd('operation_results')))
     ctx.require(ctx.n('operation_runs') >= 50, 'too few operation-body renderings (%d)' % ctx.n('operation_runs'))
     if prebuild_available():
         pc = prebuild_corpus(ctx.tier)
